@@ -218,3 +218,27 @@ def run_property(pid, tier="quick", cfgs=None, facts_for=None, out=sys.stdout, w
     except BrokenPipeError:
         pass
     return 1 if (reported or build_error) else 0
+
+
+def thorough_extras(pid, out=sys.stdout):
+    """Thorough tier: additionally run the checker self-test (positive controls + seeded changes) for this property on
+    scratch copies of /repo.  Its outcome is reported as `checker_health`; it never changes the property verdict."""
+    import subprocess
+    st = os.path.join(VERIF, "bin", "selftest")
+    if not os.path.exists(st):
+        return 0
+    r = subprocess.run([st, "--property", pid, "--quiet"], stdout=subprocess.PIPE, stderr=subprocess.STDOUT, text=True)
+    tail = r.stdout.strip().splitlines()[-6:]
+    out.write(f"[{pid}] checker_health (self-test on scratch copies): {'ok' if r.returncode == 0 else 'ATTENTION'}\n")
+    for ln in tail:
+        out.write("      " + ln + "\n")
+    p = os.path.join(VERIF, "evidence", f"{pid}.json")
+    try:
+        with open(p) as f:
+            ev = json.load(f)
+        ev["coverage"]["checker_health"] = {"selftest_exit": r.returncode, "summary": tail}
+        with open(p, "w") as f:
+            json.dump(ev, f, indent=1)
+    except Exception:
+        pass
+    return 0
